@@ -1,3 +1,4 @@
+import Chartparse.Proofs.ReSound
 import Chartparse.Proofs.Round
 import Chartparse.Proofs.ReTS
 import Chartparse.Proofs.ReNorm
@@ -84,5 +85,25 @@ theorem C08_anchor_accept (p t l : Str) (hp : AllIn .space p) (ht : AllIn .digit
 /-- non-vacuity: a concrete TS line with exotic padding and Arabic-Indic digits -/
 example : Gen.tsRe.matchGroups ([9, 160] ++ ([1634, 48] ++ ([32, 61, 32, 84, 83, 32] ++ ([54] ++ (32 :: ([51] ++ [32]))))))
     = some [(3, [51]), (2, [54]), (1, [1634, 48])] := by decide
+
+/-- **C08, B ⇔** -/
+theorem C08_bpm_sound (s : Str) (caps : Caps) (h : Gen.bpmRe.matchGroups s = some caps) :
+    ∃ p t l q, s = p ++ (t ++ ([32, 61, 32, 66, 32] ++ (l ++ q))) ∧ AllIn .space p ∧ AllIn .digit t ∧ t ≠ [] ∧
+      AllIn .digit l ∧ l ≠ [] ∧ AllIn .space q ∧ caps = [(2, l), (1, t)] := by
+  rw [matchGroups_of_norm_eq gen_bpm_is_template] at h; exact Chartparse.Rx.bpm_sound s caps h
+
+/-- **C08, A ⇔** (no trailing blanks; at most one final line feed) -/
+theorem C08_anchor_sound (s : Str) (caps : Caps) (h : Gen.anchorRe.matchGroups s = some caps) :
+    ∃ p t l r', s = p ++ (t ++ ([32, 61, 32, 65, 32] ++ (l ++ r'))) ∧ AllIn .space p ∧ AllIn .digit t ∧ t ≠ [] ∧
+      AllIn .digit l ∧ l ≠ [] ∧ (r' = [] ∨ r' = [10]) ∧ caps = [(2, l), (1, t)] := by
+  rw [matchGroups_of_norm_eq gen_anchor_is_template] at h; exact Chartparse.Rx.anchor_sound s caps h
+
+/-- **C08, TS ⇔**: two numbers, or three with exactly one blank before the third -/
+theorem C08_ts_sound (s : Str) (caps : Caps) (h : Gen.tsRe.matchGroups s = some caps) :
+    ∃ p t u, AllIn .space p ∧ AllIn .digit t ∧ t ≠ [] ∧ AllIn .digit u ∧ u ≠ [] ∧
+      ((∃ q, s = p ++ (t ++ ([32, 61, 32, 84, 83, 32] ++ (u ++ q))) ∧ AllIn .space q ∧ caps = [(2, u), (1, t)]) ∨
+       (∃ l q, s = p ++ (t ++ ([32, 61, 32, 84, 83, 32] ++ (u ++ (32 :: (l ++ q))))) ∧ AllIn .digit l ∧ l ≠ [] ∧ AllIn .space q ∧
+          caps = [(3, l), (2, u), (1, t)])) := by
+  rw [matchGroups_of_norm_eq (gen_ts_is_template.trans tsEv_norm.symm)] at h; exact Chartparse.Rx.ts_sound s caps h
 
 end Chartparse.Props.C08
